@@ -195,6 +195,13 @@ def make_triples(root, alts, n, strat="none", leafkind="int", props=("C05",), kn
         E.goal("nested-decision", any(len(d.common_path) > 0 for d in ds))
         if "C13" in props:
             purity_after(E, b, l, r, snaps, "merge")
+            # diffs supplied by the caller must come back unchanged
+            from nbdime.merging.generic import decide_merge_with_diff
+            dl, dr = nbdime.diff(b, l), nbdime.diff(b, r)
+            sdl, sdr = snapshot(dl), snapshot(dr)
+            decide_merge_with_diff(b, l, r, dl, dr, strategies_for(strat))
+            E.check("decide-leaves-supplied-local-diff-unchanged", json_identical(dl, sdl))
+            E.check("decide-leaves-supplied-remote-diff-unchanged", json_identical(dr, sdr))
             sd = snapshot([dict(d) for d in ds])
             from nbdime.merging.decisions import apply_decisions
             m2 = apply_decisions(b, ds)
